@@ -88,8 +88,10 @@ def hmm_long_case(rng):
     """long observation sequences: the running log marginal leaves the float32 range of
     probabilities (exp underflows below about -87), so only a log-space recursion is exact"""
     K = rng.choice([2, 3])
-    M = rng.choice([2, 3, 4])
-    T = rng.choice([70, 100, 150, 250])
+    M = rng.choice([3, 4])
+    # about -ln M per step: the log marginal ends near -100 (quick) or lower (thorough), well below the
+    # float32 exp underflow; the exact rational forward pass in Coq is cubic in T, hence the bound
+    T = (rng.randint(95, 110) if M == 3 else rng.randint(75, 90)) if not LONG_THOROUGH else rng.choice([120, 150, 180])
     pi0 = rand_stoch(rng, K, False)
     A = [rand_stoch(rng, K, rng.random() < 0.3) for _ in range(K)]
     E = [rand_stoch(rng, M, False) for _ in range(K)]
@@ -163,8 +165,13 @@ def kal_case(rng):
     return c
 
 
+LONG_THOROUGH = False
+
+
 def main():
+    global LONG_THOROUGH
     out, sd, n = sys.argv[1], int(sys.argv[2]), int(sys.argv[3])
+    LONG_THOROUGH = len(sys.argv) > 4 and sys.argv[4] == "thorough"
     rng = random.Random(sd)
     cases = [hmm_long_case(rng) if i % 6 == 4 else hmm_case(rng) if i % 2 == 0 else kal_case(rng) for i in range(n)]
     json.dump(cases, open(out, "w"))
